@@ -16,7 +16,7 @@ mod verif_c05_altitude {
 
     macro_rules! alt_region_proof {
         ($name:ident, $frame:ident, $df:expr, $pred:expr) => {
-            #[kani::proof_for_contract(altitude)]
+            #[kani::proof]
             #[kani::unwind(34)]
             fn $name() {
                 let m = $frame();
